@@ -330,12 +330,16 @@ def run(check):
            any(dotted(t) == 'self.sorted_nodes' for t in n.targets)]
     okf = False
     why = 'self.sorted_nodes is not assigned'
+    vn_u = ValueNumbers(cx, un)
+    NODES = ('attr', ('param', un.params[0]), 'nodes')
     for a in asg:
       v = a.value
-      if isinstance(v, ast.Call) and dotted(v.func) == 'sorted' and v.args and isinstance(v.args[0], (ast.ListComp, ast.GeneratorExp)) and \
-         len(v.args[0].generators) == 1 and dotted(v.args[0].generators[0].iter) == 'self.nodes' and not v.args[0].generators[0].ifs \
-         and isinstance(v.args[0].elt, ast.Tuple) and isinstance(v.args[0].elt.elts[-1], ast.Name) and \
-         v.args[0].elt.elts[-1].id == getattr(v.args[0].generators[0].target, 'id', None):
+      tv = vn_u.term(v, a)
+      inner = tv[2] if isinstance(tv, tuple) and tv[0] == 'call' and tv[1] == 'sorted' and len(tv) >= 3 else None
+      while isinstance(inner, tuple) and inner[0] == 'call' and inner[1] in ('list', 'tuple') and len(inner) == 3:
+        inner = inner[2]
+      if isinstance(inner, tuple) and inner[0] == 'comp' and not inner[2] and isinstance(inner[1], tuple) and \
+         inner[1][0] == 'tuple' and len(inner[1]) == 3 and inner[1][-1] == ('elem', NODES):
         okf = True
       else:
         why = '`%s` is not sorted(<one (hash, node) pair per element of self.nodes>)' % short(v, 70)
